@@ -311,22 +311,54 @@ func runAPI(c *harness.Ctx) harness.Result {
 	return res
 }
 
+// extractJSON finds the stack data in a flame graph page: the first JSON object with the members
+// "Sources" and "Stacks" inside a script element, wherever and under whatever name the page hands
+// it to its viewer. Script elements are delimited the way a browser does it.
 func extractJSON(page string) (string, error) {
-	i := strings.LastIndex(page, "stackViewer(")
-	if i < 0 {
-		return "", fmt.Errorf("stackViewer( call not found in page")
+	lower := strings.ToLower(page)
+	pos, scripts := 0, 0
+	for {
+		i := strings.Index(lower[pos:], "<script")
+		if i < 0 {
+			break
+		}
+		i += pos
+		g := strings.Index(lower[i:], ">")
+		if g < 0 {
+			break
+		}
+		start := i + g + 1
+		// a browser ends the script element at the first "</script" (any case), wherever it stands
+		end := len(page)
+		if j := strings.Index(lower[start:], "</script"); j >= 0 {
+			end = start + j
+		}
+		text := page[start:end]
+		scripts++
+		for k := 0; k < len(text); {
+			b := strings.Index(text[k:], "{\"")
+			if b < 0 {
+				break
+			}
+			b += k
+			dec := json.NewDecoder(strings.NewReader(text[b:]))
+			var raw json.RawMessage
+			if err := dec.Decode(&raw); err == nil {
+				var members map[string]json.RawMessage
+				if json.Unmarshal(raw, &members) == nil && members["Sources"] != nil && members["Stacks"] != nil {
+					return string(raw), nil
+				}
+				k = b + len(raw)
+				continue
+			}
+			k = b + 2
+		}
+		pos = end
+		if pos >= len(page) {
+			break
+		}
 	}
-	s := page[i+len("stackViewer("):]
-	// a browser ends the script element at the first "</script" (any case), wherever it stands
-	if j := strings.Index(strings.ToLower(s), "</script"); j >= 0 {
-		s = s[:j]
-	}
-	dec := json.NewDecoder(strings.NewReader(s))
-	var raw json.RawMessage
-	if err := dec.Decode(&raw); err != nil {
-		return "", fmt.Errorf("first argument of stackViewer is not JSON: %v", err)
-	}
-	return string(raw), nil
+	return "", fmt.Errorf("no JSON object with the members Sources and Stacks in any of the %d script elements of the page (as a browser delimits them)", scripts)
 }
 
 func runWeb(c *harness.Ctx) harness.Result {
